@@ -449,6 +449,9 @@ func (vc *VC) execUnOp(fr *Frame, st *State, x *ssa.UnOp) {
 		t := vc.bind(fr, x, vc.sortOf(x.Type()), vc.readLoc(st, loc))
 		vc.typeFacts(st, t, x.Type())
 		vc.noteLoad(fr, st, x.X, loc, x.Pos())
+		if isStringType(x.Type()) {
+			vc.setShape(t, shHole("str", provenance(x, 0)))
+		}
 	case token.NOT:
 		vc.bind(fr, x, "Bool", fmt.Sprintf("(not %s)", vc.value(fr, st, x.X)))
 	case token.SUB:
@@ -503,6 +506,7 @@ func (vc *VC) execBinOp(fr *Frame, st *State, x *ssa.BinOp) {
 		if isStr {
 			t := vc.bind(fr, x, "Int", fmt.Sprintf("(scat %s %s)", a, b))
 			vc.fact(st.pc, fmt.Sprintf("(= (slen %s) (+ (slen %s) (slen %s)))", t, a, b))
+			vc.setShape(t, shCat(vc.shapeOf(a), vc.shapeOf(b)))
 			return
 		}
 		if srt == "Real" {
@@ -693,6 +697,7 @@ func (vc *VC) execConvert(fr *Frame, st *State, x *ssa.Convert) {
 		vc.typeFacts(st, t, to)
 		fr.env[x] = t
 		if ts == "Slice" && isStringType(from) {
+			vc.setShape(t, vc.shapeOf(v))
 			vc.fact(st.pc, fmt.Sprintf("(and (= (s_len %s) (slen %s)) (= (s_off %s) 0))", t, v, t))
 		} else if isStringType(to) && fs == "Slice" {
 			vc.fact(st.pc, fmt.Sprintf("(= (slen %s) (s_len %s))", t, v))
@@ -809,7 +814,6 @@ func (vc *VC) execLookup(fr *Frame, st *State, x *ssa.Lookup) {
 	fr.env[x] = v
 }
 
-
 // frameStore checks a store against the modifies clause.
 func (vc *VC) frameStore(fr *Frame, st *State, addr ssa.Value, loc *Loc, pos token.Pos) {
 	// stores into objects allocated by this activation are always allowed
@@ -847,7 +851,6 @@ func (vc *VC) frameStore(fr *Frame, st *State, addr ssa.Value, loc *Loc, pos tok
 	}
 }
 
-
 // constZero: the zero value as an SMT value literal (cvc5 requires literals in constant arrays).
 func (vc *VC) constZero(t types.Type) string {
 	switch vc.sortOf(t) {
@@ -865,7 +868,6 @@ func (vc *VC) constZero(t types.Type) string {
 	}
 	return "0"
 }
-
 
 type mapIter struct {
 	keyFn   string
